@@ -620,6 +620,19 @@ impl Fmt {
         self.placed.len() - 1
     }
 
+    /// Same, with an explicit length (any value up to 2^32 - 1); the chain covers it exactly.
+    pub fn add_sparse_file_sized(&mut self, d: usize, name: &[u8; 11], size: u32, how: Alloc) -> usize {
+        let cb = self.g.cluster_bytes() as u64;
+        let n = ((size as u64 + cb - 1) / cb) as usize;
+        let chain = self.alloc_chain(n, how);
+        assert_eq!(chain.len(), n, "volume too small for the sparse file");
+        let raw = self.raw_entry(name, 0x20, chain.first().cloned().unwrap_or(0), size);
+        let (blk, off) = self.put_slot(d, &raw, Alloc::Seq);
+        let path = self.child_path(d, name);
+        self.placed.push(Placed { path, is_dir: false, attr: 0x20, data: None, size, chain, slot_blk: blk, slot_off: off, raw, lfn: None });
+        self.placed.len() - 1
+    }
+
     pub fn mkdir(&mut self, parent: usize, name: &[u8; 11], attr: u8, how: Alloc) -> usize {
         let c = self.alloc_chain(1, how)[0];
         self.zero_cluster(c);
